@@ -10,6 +10,7 @@
 (*   Store  name, len, kind, ok, names, lens, kinds     (observed holder after the call) *)
 (*   Delete name, ok, names, lens, kinds                (observed holder after the call) *)
 (*   List   ok, list, names, lens, kinds                (holder before the call)         *)
+(*   Condition name, sp                                 (an initial condition in the block) *)
 (*   Horizon place, h                                   (the user states the horizon)   *)
 (*   Solve  used, vs, ok, must, names, lens, kinds      (observed holder after the call; *)
 (*          used: the horizon the solver ended up with - conformance only, the property  *)
@@ -108,6 +109,9 @@ TraceNext ==
        \/ /\ e.ev = "List"
           /\ List
           /\ verdict' = Worse(verdict, JudgeList(e))
+       \/ /\ e.ev = "Condition"
+          /\ Condition(e.name, e.sp)
+          /\ UNCHANGED verdict
        \/ /\ e.ev = "Horizon"
           /\ StateHorizon(e.place, e.h)
           /\ UNCHANGED verdict
@@ -125,7 +129,7 @@ TraceNext ==
        \/ /\ e.ev = "End"
           /\ PrintT(<< "VERDICT", e.tid, verdict.kind \o ":" \o verdict.clause >>)
           /\ phase' = "build" /\ holder' = EmptyHolder /\ solved' = NotSolved
-          /\ table' = NoTable /\ stated' = Unstated /\ hist' = << >>
+          /\ table' = NoTable /\ stated' = Unstated /\ conds' = {} /\ hist' = << >>
           /\ verdict' = Ok
 
 TraceSpec == TraceInit /\ [][TraceNext]_tvars
